@@ -346,6 +346,30 @@ def run_config(report, rng, tier):
         report.count(("cfg", "vf"), True)
         if reloaded != resolved or len(resolved.masters) != 2 or len(resolved.axes) != 2:
             report_failure(report, "config_roundtrip_vf", dict(kind="property", case=dict(resolved=repr(resolved), reloaded=repr(reloaded))))
+        # source file names with characters a glob would interpret ([1] of a duplicate download, a question mark): the
+        # list the driver resolved must be the list the step loads back, file for file
+        odd = d / "odd"
+        odd.mkdir()
+        odd_names = ["emoji_u1f600[1].svg", "emoji_u1f6001.svg", "emoji_u1f603 ?.svg", "emoji_u1f603 x.svg", "emoji_u1f604.svg"]
+        for nm in odd_names:
+            (odd / nm).write_text(src.read_text())
+        listed = [odd_names[0], odd_names[2], odd_names[4]]
+        f = d / "odd.toml"
+        f.write_text('output_file="Odd.ttf"\n[axis.wght]\nname="Weight"\ndefault=400\n[master.regular]\nstyle_name="Regular"\nsrcs=[%s]\n[master.regular.position]\nwght=400\n'
+                     % ", ".join('"%s"' % str(odd / nm) for nm in listed))
+        set_flags({})
+        resolved = cfgmod.load(f)
+        out = d / "odd_out.toml"
+        cfgmod.write(out, resolved)
+        reloaded = cfgmod.load(out)
+        n += 1
+        report.count(("cfg", "odd source names"), True)
+        want_srcs = sorted(str(odd / nm) for nm in listed)
+        got1 = sorted(str(p_) for p_ in resolved.masters[0].sources)
+        got2 = sorted(str(p_) for p_ in reloaded.masters[0].sources)
+        if got1 != want_srcs or got2 != want_srcs:
+            report_failure(report, "config_roundtrip_odd_names", dict(kind="property", case=dict(function="config.load/write/load (sources)", listed=want_srcs, resolved=got1, reloaded=got2)))
+            return
     report.notes["config.cases"] = n
     report.sample(dict(function="config.load/write/load", fields=len(fields), modes=["neither", "file", "flag", "both"]))
 
